@@ -22,7 +22,7 @@ type Result struct {
 	Body     []byte              `json:"-"`
 	BodyHead string              `json:"body_head"`
 	BodyLen  int                 `json:"body_len"`
-	Err      string              `json:"err,omitempty"`     // transport-level error before/while reading headers
+	Err      string              `json:"err,omitempty"`      // transport-level error before/while reading headers
 	BodyErr  string              `json:"body_err,omitempty"` // error while reading the body (truncation)
 	TCall    int64               `json:"t_call"`
 	THeaders int64               `json:"t_headers"`
